@@ -1,6 +1,51 @@
 (* Property C04 -- statements only; every proof is `exact <lemma from Proofs/>`. *)
-From Erbium Require Import Lib.Base Model.DnsName Model.DnsCodec Model.DnsEncodeSized Proofs.DnsCodec.
+From Erbium Require Import Lib.Base Model.DnsName Model.DnsCodec Model.DnsStrict Model.DnsEncodeSized Proofs.DnsCodec Proofs.DnsStrictProofs.
 
+(* C04 at the byte level, full strength.  For every well-formed reply m and every
+   limit (>= 512; smaller limits assert), the octets e produced by the size-limited
+   serialiser (t = "a record was dropped") are never longer than the limit and are
+   a strictly well-formed DNS message: the specification-side decoder
+   [strict_decode] (Model/DnsStrict.v: QDCOUNT 1, header counts = records present,
+   no trailing octets, RDLENGTH exact, every compression pointer backwards and
+   below 0x4000, at most one root-owned OPT) accepts e and returns
+   [sized_result m ac nc dc t] (Proofs/DnsStrictProofs.v): m's id, flags, opcode,
+   question; TC = tc m || t; the first ac answers, nc authority records and dc
+   additional records (OPT pseudo-record last) and nothing else.  Records are
+   dropped whole and from the end only (a shortened section is followed by empty
+   ones); t = false means all records are present, and t = true means at least one
+   record really was dropped: TC is set by the serialiser only then. *)
+Theorem C04_sized_wellformed : forall m size e t,
+  wf_pkt m = true -> encode_sized_t m size = Ok (e, t) ->
+  lenN e <= size /\
+  exists ac nc dc,
+    strict_decode e = Some (sized_result m ac nc dc t) /\
+    let adds := additional m ++ opt_rr m in
+    (N.to_nat ac <= length (answer m))%nat /\ (N.to_nat nc <= length (nameserver m))%nat /\
+    (N.to_nat dc <= length adds)%nat /\
+    (t = false -> N.to_nat ac = length (answer m) /\ N.to_nat nc = length (nameserver m) /\
+                  N.to_nat dc = length adds) /\
+    (t = true -> (N.to_nat ac < length (answer m))%nat \/ (N.to_nat nc < length (nameserver m))%nat \/
+                 (N.to_nat dc < length adds)%nat) /\
+    ((N.to_nat ac < length (answer m))%nat -> nc = 0 /\ dc = 0) /\
+    ((N.to_nat nc < length (nameserver m))%nat -> dc = 0).
+Proof. exact sized_wellformed. Qed.
+Check C04_sized_wellformed : forall m size e t,
+  wf_pkt m = true -> encode_sized_t m size = Ok (e, t) ->
+  lenN e <= size /\
+  exists ac nc dc,
+    strict_decode e = Some (sized_result m ac nc dc t) /\
+    let adds := additional m ++ opt_rr m in
+    (N.to_nat ac <= length (answer m))%nat /\ (N.to_nat nc <= length (nameserver m))%nat /\
+    (N.to_nat dc <= length adds)%nat /\
+    (t = false -> N.to_nat ac = length (answer m) /\ N.to_nat nc = length (nameserver m) /\
+                  N.to_nat dc = length adds) /\
+    (t = true -> (N.to_nat ac < length (answer m))%nat \/ (N.to_nat nc < length (nameserver m))%nat \/
+                 (N.to_nat dc < length adds)%nat) /\
+    ((N.to_nat ac < length (answer m))%nat -> nc = 0 /\ dc = 0) /\
+    ((N.to_nat nc < length (nameserver m))%nat -> dc = 0).
+Print Assumptions C04_sized_wellformed.
+
+(* The abstract half (kept): octets = header ++ question ++ unlimited encoding of the kept records. *)
 (* The size-limited serialiser (any message whose question name is a legal
    name; any limit >= 512, smaller limits assert): the result is never longer
    than the limit, and it consists of the header carrying the counts of the
@@ -10,12 +55,8 @@ From Erbium Require Import Lib.Base Model.DnsName Model.DnsCodec Model.DnsEncode
    (OPT pseudo-record last).  Whole records only; once a record is dropped no
    later record is written; when the internal flag t is false nothing was
    dropped, and the TC bit on the wire is [tc m || t] (flag1).
-   Full statement wanted (byte level, not yet proved): additionally
-     exists m', strict_decode e = Some m' /\ header_eq m m' /\
-       rrs m' = firstn (ac+nc+dc) (rrs_on_wire m).
-   The strict decoder is evaluated on the implementation's bytes in every
-   run of the check instead. *)
-Theorem C04_sized_wellformed_partial : forall m size e,
+   The byte-level statement (strict_decode) is C04_sized_wellformed above. *)
+Theorem C04_sized_shape : forall m size e,
   wf_name (qname m) = true -> encode_sized m size = Ok e ->
   lenN e <= size /\
   exists qb k0 recs k ac nc dc t,
@@ -33,7 +74,7 @@ Theorem C04_sized_wellformed_partial : forall m size e,
     ((N.to_nat ac < length (answer m))%nat -> nc = 0 /\ dc = 0) /\
     ((N.to_nat nc < length (nameserver m))%nat -> dc = 0).
 Proof. exact sized_wellformed_partial. Qed.
-Check C04_sized_wellformed_partial : forall m size e,
+Check C04_sized_shape : forall m size e,
   wf_name (qname m) = true -> encode_sized m size = Ok e ->
   lenN e <= size /\
   exists qb k0 recs k ac nc dc t,
@@ -50,7 +91,7 @@ Check C04_sized_wellformed_partial : forall m size e,
                   N.to_nat dc = length adds) /\
     ((N.to_nat ac < length (answer m))%nat -> nc = 0 /\ dc = 0) /\
     ((N.to_nat nc < length (nameserver m))%nat -> dc = 0).
-Print Assumptions C04_sized_wellformed_partial.
+Print Assumptions C04_sized_shape.
 
 (* Truncation is maximal: a section stops only at a record that does not fit
    (the record at index c exists, and written after the kept ones it would
